@@ -464,8 +464,13 @@ func (c *controller) takeAhead(l label) bool {
 func (c *controller) compare(step int, l label, p *proj, plan []planLine) {
 	w := c.w
 	bad := func(field string, real, spec interface{}) {
+		_, snap := sched.Quiet()
+		var gs []string
+		for _, g := range snap {
+			gs = append(gs, fmt.Sprintf("%d[%s] %s", g.ID, g.State, firstFrames(g.Stack)))
+		}
 		w.sum.Mis("server/projection:"+field, fmt.Sprintf("after step %d (%s) the real server has %s = %v, the specification %v", step, l, field, real, spec),
-			map[string]interface{}{"mode": c.mode, "plan": plan[:step+1], "events": w.R.Events()})
+			map[string]interface{}{"mode": c.mode, "plan": plan[:step+1], "events": w.R.Events(), "goroutines": gs, "parked": fmt.Sprint(w.R.AllParked()), "debug": w.R.Debug()})
 	}
 	if got := w.Srv.VerifStarted(); got != p.Started {
 		bad("started", got, p.Started)
